@@ -376,6 +376,14 @@ func main() {
 		os.Exit(3)
 	}
 	writeIfChanged(filepath.Join(*out, "Layouts.lean"), lb.String())
+	dp := p.dupPlans()
+	if len(failures) > 0 {
+		for _, f := range failures {
+			fmt.Fprintln(os.Stderr, "extract:", f)
+		}
+		os.Exit(3)
+	}
+	writeIfChanged(filepath.Join(*out, "DupPlans.lean"), "-- GENERATED by /verif/harness/cmd/extract from /repo's zduplicate.go (do not edit)\nnamespace Dns.Gen\n"+leanDupPlans(dp)+"end Dns.Gen\n")
 	if *snapshot != "" {
 		// one-time snapshot of the specification tables (committed, reviewed against the RFCs)
 		js, _ := json.MarshalIndent(map[string]any{"pack": pk, "unpack": up, "types": reg}, "", " ")
